@@ -183,10 +183,13 @@ def run_twin(tdgl, args, tmp):
     opt = tdgl.SolverOptions(solve_time=args["solve_time"], dt_init=args["dt"], dt_max=args.get("dt_max", 0.1), adaptive=args.get("adaptive", False),
                              adaptive_window=3, save_every=args.get("k", 4), progress_interval=10 ** 9, pause_on_interrupt=False,
                              output_file=os.path.join(work, "out.h5"), include_screening=args.get("screening", False),
-                             screening_tolerance=args.get("screening_tol", 1e-6), max_iterations_per_step=5000,
+                             screening_tolerance=args.get("screening_tol", 1e-6), max_iterations_per_step=2000,
                              field_units=fu, current_units=cu)
     cur = nums["I"] * args.get("Ifactor", 1.0)
-    sol = tdgl.solve(dev, opt, applied_vector_potential=nums["B"] * args.get("Bfactor", 1.0), terminal_currents={"source": cur, "drain": -cur})
+    try:
+        sol = tdgl.solve(dev, opt, applied_vector_potential=nums["B"] * args.get("Bfactor", 1.0), terminal_currents={"source": cur, "drain": -cur})
+    except Exception as e:        # recorded: whether a run raises must not depend on the unit system
+        return {"u": u, "error": f"{type(e).__name__}: {e}"}
     frames = []
     with h5py.File(sol.path, "r") as f:
         for key in sorted(f["data"], key=int):
